@@ -212,8 +212,8 @@ PARTS = {
                                "C10.Duplicate": "C10", "C10.TooMany": "C10", "C10.Order": "C10", "C10.PredicateMismatch": "C10",
                                "C10.NotAnswered": "C10", "C10.Incomplete": "C10"},
         spec="MC_Lookup.tla", mc={"quick": [], "thorough": []},
-        sim={"quick": [dict(cfg="MC_Lookup_sim_ip4.cfg", num=60, depth=40), dict(cfg="MC_Lookup_sim_dual.cfg", num=40, depth=40)],
-             "thorough": [dict(cfg="MC_Lookup_sim_ip4.cfg", num=800, depth=40), dict(cfg="MC_Lookup_sim_dual.cfg", num=500, depth=40)]},
+        sim={"quick": [dict(cfg="MC_Lookup_sim_ip4.cfg", num=60, depth=50), dict(cfg="MC_Lookup_sim_dual.cfg", num=40, depth=50)],
+             "thorough": [dict(cfg="MC_Lookup_sim_ip4.cfg", num=800, depth=50), dict(cfg="MC_Lookup_sim_dual.cfg", num=500, depth=50)]},
         required=lambda events: [n for n in ["callback", "nonempty-result", "honest_reply", "late-timeout"] if n not in
                                  {("callback" if e["obs"]["done"] else "") for e in events}
                                  | {("nonempty-result" if any(d.get("res") for d in e["obs"]["done"]) else "") for e in events}
